@@ -63,6 +63,15 @@ CLAIMED = {
             "controls are non-repeating pre-solve sim-time controls toggling the run-time switch; that remove_leak clears everything.",
             "Leak term in the balance rows and tank demand is decided under C01. Timing itself is C04's mechanism. Not decided: solution values.",
             "DESIGN.md §4 C08"),
+    "C12": ("sibling cross-check of InpFile._write_X / _read_X: unit-conversion sites followed by abstract interpretation into file columns / "
+            "keywords / discriminators and joined; conversion classes from C17's partial evaluator; ordering and discriminator-column rules; "
+            "six-way map comparison for rule clauses",
+            "Decides that writer and reader agree, section by section and column by column, on which unit class a field carries (inverse "
+            "conversions with equal flags), selected by which discriminator read from which column, that option-dependent lines follow the "
+            "option, that rules and simple controls convert thresholds/settings with one attribute->unit map on both sides, that 2.0-format "
+            "files omit only the 2.2 options, and that the time-string helpers are inverse.",
+            "Does not decide text formatting precision, idempotence of a second cycle, write guards relying on EPANET defaults, nor models the "
+            "API can build that INP cannot express. [REPORT]/[BACKDROP]/[LABELS] are outside the statement.", "DESIGN.md §4 C12"),
     "C14": ("registry-invariant analysis over the AST: add_usage/remove_usage pairing tables, typed-subset add/discard set comparison, "
             "statement-order (must-precede) rules in __delitem__, view-accessor resolution",
             "Decides, for every mutating registry operation, that it preserves the invariant 'all views agree' (usage pairing per registry and tag, "
